@@ -150,8 +150,9 @@ example : exAcct.dv 0 ≤ vesting exAcct 112 0 ∧ vesting exAcct 112 0 = 18 := 
 /-! ## `SendTimeLockedCoinsToAccount`: dispatch, refusals, frame -/
 
 /-- "exceeding the incentive account's balance [is] refused": checked first, for every recipient kind,
-    lock-up or not. (A refusal is `.err`: the model carries no post-state for it; that the real keeper has
-    moved nothing when it returns the error is checked on the implementation by the harness.) -/
+    lock-up or not. (A refusal is `.err` here: this transactional model carries no post-state for it. That
+    the keeper call itself has moved nothing when it returns the error is `C20_refused_no_move` below, over
+    the rollback-free model `sendTimeLockedK`, and is evaluated on the implementation by the harness.) -/
 theorem C20_dispatch_insufficient (now : Int) (w : World) (amt : Coins) (length : Int)
     (h : isAllGTE w.modBal amt = false) : sendTimeLocked now w amt length = .err :=
   sendTimeLocked_insufficient now w amt length h
@@ -213,6 +214,63 @@ example : (sendTimeLocked 112 (exWorld .module false) exAmt 0).isOk = true := by
 example : (sendTimeLocked 112 (exWorld .base true) exAmt 5).isOk = false := by decide
 example : isAllGTE (exWorld .base false).modBal (fun d => if d = 1 then 41 else 0) = false ∧
     (sendTimeLocked 112 (exWorld .base false) (fun d => if d = 1 then 41 else 0) 5).isOk = false := by decide
+
+/-! ## Refusals move nothing — on the keeper's own context, without any rollback
+
+`sendTimeLockedK` returns what the keeper's context holds after the call. The bank underneath debits the
+sender coin by coin and stores every new balance before it looks at the next coin (`subUnlockedFrom`), so a
+bank-level failure in the middle of a multi-denom amount leaves earlier denoms debited. -/
+
+/-- "… exceeding the incentive account's balance are refused without moving funds": EVERY refusal of the
+    keeper call (whatever the reason: module balance short in any denom, recipient blocked, missing or of a
+    refused kind; any lock-up length incl. 0; amounts with any number of denoms) leaves the module account's
+    balances, the recipient's balances and the recipient's account (type, vesting schedule) exactly as they
+    were. No rollback is assumed. -/
+theorem C20_refused_no_move (now : Int) (w : World) (amt : Coins) (length : Int)
+    (h : (sendTimeLockedK now w amt length).2 = false) : (sendTimeLockedK now w amt length).1 = w :=
+  sendTimeLockedK_refused_unchanged now w amt length h
+
+/-- multi-denom amounts: exceeding the module account's balance in ANY ONE denom (the denom may be absent
+    from the module account altogether, the other denoms may be amply covered) ⇒ error and state unchanged,
+    for every recipient kind and every lock-up length -/
+theorem C20_refused_exceeds_any_denom (now : Int) (w : World) (amt : Coins) (length : Int)
+    (d : Denom) (hd : d < ND) (h : w.modBal d < amt d) :
+    sendTimeLockedK now w amt length = (w, false) :=
+  sendTimeLockedK_exceeds now w amt length d hd h
+
+/-- the rollback-free semantics and the transactional one (`sendTimeLocked`, used by the dispatch theorems)
+    agree: same verdict, and on success the same post-state -/
+theorem C20_keeper_context_refines (now : Int) (w : World) (amt : Coins) (length : Int)
+    (hsupp : ∀ d, ND ≤ d → amt d = 0) :
+    sendTimeLocked now w amt length =
+      if (sendTimeLockedK now w amt length).2 then .ok (sendTimeLockedK now w amt length).1 else .err :=
+  sendTimeLockedK_refines now w amt length hsupp
+
+/-- module account holds 1000 of denom 0 and nothing else; the payout asks for 100 of denom 0 and 100 of denom 2 -/
+def gapWorld (k : Acct) : World :=
+  { modBal := fun d => if d = 0 then 1000 else 0, bal := fun _ => 0, acct := k, blocked := false }
+def gapAmt : Coins := fun d => if d = 0 then 100 else if d = 2 then 100 else 0
+
+/-- The guard over ALL denoms is what makes the refusal clean: the bank on its own, given the same
+    over-balance two-denom amount, answers with an error *after* it has debited the covered denom (the module
+    account is left with 900, the recipient got nothing). A guard that lets an amount through whose denom is
+    absent from the module account therefore breaks `C20_refused_no_move`. -/
+theorem C20_bank_alone_moves_funds_on_refusal :
+    (bankSendK (gapWorld .base) gapAmt).2 = false ∧ (bankSendK (gapWorld .base) gapAmt).1.modBal 0 = 900 ∧
+      (bankSendK (gapWorld .base) gapAmt).1.bal 0 = 0 := by decide
+
+/-- non-vacuity: the keeper refuses that payout for base and periodic recipients, with and without a
+    lock-up, and its context still holds the 1000 -/
+example : (sendTimeLockedK 112 (gapWorld .base) gapAmt 5).2 = false ∧
+    (sendTimeLockedK 112 (gapWorld .base) gapAmt 5).1.modBal 0 = 1000 := by decide
+example : (sendTimeLockedK 112 (gapWorld (.periodic exAcct)) gapAmt 5).2 = false ∧
+    (sendTimeLockedK 112 (gapWorld (.periodic exAcct)) gapAmt 0).2 = false ∧
+    (sendTimeLockedK 112 (gapWorld (.periodic exAcct)) gapAmt 0).1.modBal 0 = 1000 := by decide
+/-- … and a covered multi-denom payout goes through in the rollback-free semantics as well -/
+example : (sendTimeLockedK 112 (exWorld .base false) exAmt 5).2 = true ∧
+    (sendTimeLockedK 112 (exWorld .base false) exAmt 5).1.modBal 0 = 491 ∧
+    (sendTimeLockedK 112 (exWorld .base false) exAmt 5).1.modBal 1 = 0 ∧
+    (sendTimeLockedK 112 (exWorld .base false) exAmt 5).1.bal 1 = 40 := by decide
 
 /-- Keeper level, all together: a successful lock-up payout to a base account or a well-formed periodic
     vesting account leaves the recipient with a well-formed periodic vesting account whose vesting coins at
